@@ -73,6 +73,36 @@ func TestVerifAnalysis(t *testing.T) {
 	}
 	bases := []baseT{{false, 3}, {false, 100}, {false, 32767}, {false, 32768}, {false, 65532}, {true, 0}, {true, 10}, {true, 32764}, {true, -32765}, {true, -5}}
 	dsp := &DataStreamProcessor{}
+	judge := func(rec *DataRecord, c anCase, b baseT) ([]string, []string) {
+		bad := []string{}
+		scale := 1.0 // quantities are differences of samples: absolute accuracy is judged against 1 count
+		want := anRat(c.Exp.Ptmean)
+		want.Add(want, new(big.Rat).SetInt64(int64(b.base)))
+		if ok, _ := anClose(rec.pretrigMean, want, scale); !ok {
+			bad = append(bad, "ptmean")
+		}
+		if w := anRat(c.Exp.Ptdelta); w != nil {
+			if ok, _ := anClose(rec.pretrigDelta, w, scale); !ok {
+				bad = append(bad, "ptdelta")
+			}
+		}
+		if ok, _ := anClose(rec.pulseAverage, anRat(c.Exp.Avg), scale); !ok {
+			bad = append(bad, "avg")
+		}
+		// RMS is compared as its square (the expected value is rational)
+		if ok, _ := anClose(rec.pulseRMS*rec.pulseRMS, anRat(c.Exp.Msq), scale); !ok || rec.pulseRMS < 0 {
+			bad = append(bad, "rms")
+		}
+		// peak: max of the pulse part minus the mean; an implementation that never reports a peak below the
+		// pre-trigger mean (clamps at 0) is accepted too -- the statement does not decide it
+		wp := anRat(c.Exp.Peak)
+		okp, _ := anClose(rec.peakValue, wp, scale)
+		if !okp && !(wp.Sign() < 0 && rec.peakValue == 0) {
+			bad = append(bad, "peak")
+		}
+		got := []string{fmt.Sprint(rec.pretrigMean), fmt.Sprint(rec.pretrigDelta), fmt.Sprint(rec.pulseAverage), fmt.Sprint(rec.pulseRMS), fmt.Sprint(rec.peakValue)}
+		return bad, got
+	}
 	for _, c := range in.Cases {
 		for _, b := range bases {
 			id++
@@ -91,36 +121,45 @@ func TestVerifAnalysis(t *testing.T) {
 			}()
 			ev := vmap{"ev": "Case", "scen": id, "npre": c.Npre, "n": len(c.D), "signed": b.signed, "base": b.base, "panic": pan, "bad": []string{}}
 			if pan == "" {
-				bad := []string{}
-				scale := 1.0 // quantities are differences of samples: absolute accuracy is judged against 1 count
-				want := anRat(c.Exp.Ptmean)
-				want.Add(want, new(big.Rat).SetInt64(int64(b.base)))
-				if ok, _ := anClose(rec.pretrigMean, want, scale); !ok {
-					bad = append(bad, "ptmean")
-				}
-				if w := anRat(c.Exp.Ptdelta); w != nil {
-					if ok, _ := anClose(rec.pretrigDelta, w, scale); !ok {
-						bad = append(bad, "ptdelta")
-					}
-				}
-				if ok, _ := anClose(rec.pulseAverage, anRat(c.Exp.Avg), scale); !ok {
-					bad = append(bad, "avg")
-				}
-				// RMS is compared as its square (the expected value is rational)
-				if ok, _ := anClose(rec.pulseRMS*rec.pulseRMS, anRat(c.Exp.Msq), scale); !ok || rec.pulseRMS < 0 {
-					bad = append(bad, "rms")
-				}
-				// peak: max of the pulse part minus the mean; an implementation that never reports a peak below the
-				// pre-trigger mean (clamps at 0) is accepted too -- the statement does not decide it
-				wp := anRat(c.Exp.Peak)
-				okp, _ := anClose(rec.peakValue, wp, scale)
-				if !okp && !(wp.Sign() < 0 && rec.peakValue == 0) {
-					bad = append(bad, "peak")
-				}
-				ev["bad"] = bad
-				ev["got"] = []string{fmt.Sprint(rec.pretrigMean), fmt.Sprint(rec.pretrigDelta), fmt.Sprint(rec.pulseAverage), fmt.Sprint(rec.pulseRMS), fmt.Sprint(rec.peakValue)}
+				ev["bad"], ev["got"] = judge(rec, c, b)
 			}
 			vEmit(ev)
+		}
+	}
+	// records of DIFFERENT geometry analysed in one AnalyzeData call (edge-multi variable-length records of one segment):
+	// every record is judged against its own definition-level values
+	for bi, b := range bases {
+		L := len(in.Cases)
+		for g := 0; L >= 8 && g < 60; g++ {
+			// members from four different regions of the case list (the list is ordered by geometry)
+			grp := []anCase{in.Cases[(g*7)%L], in.Cases[(g*7+L/4)%L], in.Cases[(g*7+L/2)%L], in.Cases[(g*7+3*L/4)%L]}
+			if bi%2 == 1 { // the other order too: whichever record comes first must not set the scale for the rest
+				grp = []anCase{grp[3], grp[1], grp[2], grp[0]}
+			}
+			recs := make([]*DataRecord, len(grp))
+			for k, c := range grp {
+				recs[k] = &DataRecord{data: make([]RawType, len(c.D)), presamples: c.Npre, signed: b.signed}
+				for i, d := range c.D {
+					recs[k].data[i] = RawType(uint16(b.base + d))
+				}
+			}
+			var pan string
+			func() {
+				defer func() {
+					if r := recover(); r != nil {
+						pan = fmt.Sprint(r)
+					}
+				}()
+				dsp.AnalyzeData(recs)
+			}()
+			for k, c := range grp {
+				id++
+				ev := vmap{"ev": "Case", "scen": id, "npre": c.Npre, "n": len(c.D), "signed": b.signed, "base": b.base, "panic": pan, "bad": []string{}, "kind": "mixed-batch"}
+				if pan == "" {
+					ev["bad"], ev["got"] = judge(recs[k], c, b)
+				}
+				vEmit(ev)
+			}
 		}
 	}
 	// spread cases: a small true RMS on top of a large base with a non-integer pre-trigger mean (cancellation)
